@@ -289,27 +289,7 @@ def r6(ctx, F, rule, sfx):
     if len(fevs) != 1:
         raise AnalysisIncomplete('vertex constructor calls evaluated in the clip routine: %d' % len(fevs))
     e = fevs[0]
-    nx = [x for x in next_events(ipc, cb) if x.in_loop]
-    item = None
-    for x in nx:
-        if repr(e.fargs[1]) == repr(I.frozen(I.get_field(I.downcast(x.result, 'Some'), 0, 'usize'))):
-            item = x
-    ok = item is not None
-    detail = 'second index is not the current boundary item'
-    if ok:
-        L, li = loop_record_of(ipc, item)
-        # first index: loop-carried, initialised with the first boundary item, updated to the current item
-        cur_l = None
-        for i, p in enumerate(L['phi']):
-            if isinstance(p, RF) and repr(p) == repr(e.fargs[0]):
-                cur_l = i
-        ok = cur_l is not None
-        detail = 'first index is not loop-carried'
-        if ok:
-            backs = [vals.get(cur_l) for g, vals in L['back']]
-            init_v = repr(I.frozen(L['init'][cur_l]))
-            ok = all(repr(I.frozen(x)) == repr(e.fargs[1]) for x in backs) and 'next(' in init_v and ('unwrap' in init_v or 'Some.0' in init_v)
-            detail = 'cur := first boundary item, then cur := next after each vertex'
-        stream = repr(I.frozen(L['init'][li]))
-        ok = ok and 'SimpleCycle::iter' in stream and 'take' in stream
+    wk = c01.clip_walk(F)
+    ok = wk['cur'] is not None and wk['next'] is not None and wk['cur'].is_zero() and (wk['next'] - 1).is_zero() and 'compute_boundary' in wk['cycle']
+    detail = 'first plane = walk position %s, second plane = walk position %s (per created vertex t: +t)' % (repr(wk['cur']), repr(wk['next']))
     ctx.check(rule, 'new-vertices-follow-boundary-cycle' + sfx, ok, detail, 'Vertex::from_dual(cur, next, new plane) for consecutive items of the boundary cycle', where(cb, e.line), key_extra='cycle')
